@@ -336,6 +336,10 @@ func propC14(c *Ctx) {
 	// ---- pool-zero ------------------------------------------------------------------------------------
 	rz := c.Rule("pool-zero", "every path to sync.Pool.Put(vm) resets the whole VM (a whole-struct store, or a store to every field including the abort flag) and its private Bytecode: a pooled VM must not carry the abort flag, handlers or data of its previous use", 1)
 	rulePoolZero(c, rz, vf, pf)
+	rps := c.Rule("pool-symmetric", "child VMs are registered on and unregistered from the same pool (the root VM's): otherwise a released pooled VM stays in its old root's registry and that VM's Abort makes an unrelated Invoke fail", 1)
+	rulePoolSymmetric(c, rps, pf)
+	rbo := c.Rule("child-bc-own", "every Bytecode header stored into a VM is that VM's own storage (fresh, the caller's program, or its previous header): a header shared by child VMs makes one Invoker run another's function", 2)
+	ruleChildBytecodeOwn(c, rbo, vf)
 }
 
 func rulePoolZero(c *Ctx, rule string, vf *vmFacts, pf *poolFacts) {
@@ -499,6 +503,9 @@ func propC06(c *Ctx) {
 
 	rdu := c.Rule("defer-unlock", "in the VM and the stdlib modules a mutex held across calls is released by a deferred Unlock (an explicit Unlock is skipped when a recovered panic unwinds through the function, leaving the VM or object locked)", 1)
 	ruleDeferUnlock(c, rdu, l.RepoFuncs(isLibPkg))
+
+	rjd := c.Rule("json-depth", "every growth of the JSON scanner's nesting stack is followed by the maximum-depth test: the recursive decoder cannot be driven into exhausting the Go stack, which no recover() can stop", 1)
+	ruleJSONDepth(c, rjd)
 
 	// ---- child-flag ---------------------------------------------------------------------------------------
 	rc := c.Rule("child-flag", "a child VM takes the parent's recovery flag when acquired (otherwise a panic inside a function invoked from Go skips the function's own catch/finally or escapes to the host)", 1)
@@ -742,6 +749,15 @@ func propC09(c *Ctx) {
 	}
 
 	// ---- ctx-abort ---------------------------------------------------------------------------------------------
+	if pf != nil {
+		rps := c.Rule("pool-symmetric", "child VMs are registered on and unregistered from the same pool (the root VM's): Abort reaches children only through that registry, and a stale entry aborts whoever holds the pooled VM next", 1)
+		rulePoolSymmetric(c, rps, pf)
+	}
+	rasl := c.Rule("abort-store-loop", "no store to the abort flag lies inside the loop of Run that re-enters the dispatch loop after a recovered panic", 1)
+	ruleAbortStoreLoop(c, rasl, vf, fAbort)
+	rcv := c.Rule("call-vm", "every Call value built by a method of VM or Invoker carries the VM, so a Go callee reached through it can observe Abort", 3)
+	ruleCallVM(c, rcv)
+
 	rx := c.Rule("ctx-abort", "every select arm on ctx.Done() in the functions that run a VM under a context calls Abort, and when the run was already started on a goroutine it then waits for the run's completion channel", 2)
 	ruleCtxAbort(c, rx, vf, abortM)
 
